@@ -34,6 +34,27 @@ def empties(rng, n):
     return hs
 
 
+def raw_blocks(rng, n):
+    """Histories in which the application also writes blocks it built itself with the raw add_* API."""
+    hs = []
+    for i in range(n):
+        h = histgen.gen_history(rng, nops=rng.choice([3, 8, 15]), comp="none", out=["file", "fd"][i % 2], sizes=[2, 5, 10000],
+                                rot=(i % 2 == 0), hints_mode="all")
+        pools = histgen.Pools(rng)
+        bps = h["preamble"]["bps"]
+        ops = []
+        n0 = len(bps)      # only sets of the initial preamble: they are in every header
+        for o in h["ops"]:
+            ops.append(o)
+            if rng.random() < 0.35:
+                bpi = rng.randrange(n0)
+                ops.append(histgen.gen_raw_block(rng, pools, bpi, bps[bpi]))
+        ops.append(histgen.gen_raw_block(rng, pools, 0, bps[0]))
+        h["ops"] = ops
+        hs.append(h)
+    return hs
+
+
 def run(tier):
     chk = Check("C02", tier, "model_checking")
     chk.rule = ("one execution = one API history; families: random histories, histories with present-but-empty "
@@ -47,6 +68,7 @@ def run(tier):
     n = 100 if tier == "quick" else 1500
     hs = empties(rng, n)
     hs += [histgen.gen_history(rng, nops=30) for _ in range(n // 3)]
+    hs += raw_blocks(rng, n // 2)
     m = run_histories(chk, hs, {"C02"}, label="c02")
     chk.distinct = m["execs"]
     return chk.finish()
